@@ -63,6 +63,8 @@ def impl_op(cux, op):
             if seq != seq0 or sst != sst0:
                 return 'input-modified'
             return 'ok ' + ' '.join(a) + ' / ' + ''.join(b)
+        if k == 'rotdb.str':
+            return 'ok ' + ' ; '.join('%s / %s' % (a, b) for a, b in cux.rotate_complex_db(op[1], op[2], join=True))
         if k == 'rotpt':
             ss = op[1]
             pt = cux.make_pair_table(ss)
